@@ -108,19 +108,24 @@ func (c09Common) AfterSend(sender types.StreamSender) error { return nil }
 // BaseStream.DestroyStream -> listener.OnDestroyStream -> client.ActiveRequestsNum ->
 // streamConn.ActiveStreamsNum (sc.clientMutex.RLock of the SAME streamConn: the stream's listener
 // is the active client of the connection being reset): the goroutine waits for itself.
+const (
+	c09DLGoAwayClass  = "I5 self-deadlock when a go-away connection that still carries streams is closed (streams never destroyed)"
+	c09DLGoAwayDetail = "streamConn.Reset holds sc.clientMutex while it resets the streams; activeClientMultiplex.OnDestroyStream, seeing state GoAway, calls codecClient.ActiveRequestsNum -> streamConn.ActiveStreamsNum, which read-locks the same mutex: the closing goroutine waits for itself, no stream of the connection is ever destroyed, Requests / upstream_request_active are never released"
+	c09DLCloseClass   = "I3 self-deadlock in pool Close with an idle connection (idle connections never leave the books)"
+	c09DLCloseDetail  = "poolPingPong.Close holds clientMux while closing the idle connections; the synchronous close event runs activeClientPingPong.OnEvent -> removeFromPool, which locks clientMux again: the caller of Close waits for itself while holding the pool mutex, every later NewStream on this pool blocks too"
+)
+
 func (c09Common) SelfDeadlock(stack string) (class, detail string) {
 	i := strings.Index(stack, "(*streamConn).ActiveStreamsNum")
 	j := strings.Index(stack, "(*streamConn).Reset(")
 	k := strings.Index(stack, "OnDestroyStream")
 	if i >= 0 && j > i && k > i && k < j {
-		return "I5 self-deadlock when a go-away connection that still carries streams is closed (streams never destroyed)",
-			"streamConn.Reset holds sc.clientMutex while it resets the streams; activeClientMultiplex.OnDestroyStream, seeing state GoAway, calls codecClient.ActiveRequestsNum -> streamConn.ActiveStreamsNum, which read-locks the same mutex: the closing goroutine waits for itself, no stream of the connection is ever destroyed, Requests / upstream_request_active are never released"
+		return c09DLGoAwayClass, c09DLGoAwayDetail
 	}
 	// poolPingPong.Close holds p.clientMux while it closes the idle connections; the close event
 	// reaches activeClientPingPong.OnEvent -> removeFromPool, which locks p.clientMux again
 	if a, b := strings.Index(stack, "(*activeClientPingPong).removeFromPool"), strings.Index(stack, "(*poolPingPong).Close("); a >= 0 && b > a {
-		return "I3 self-deadlock in pool Close with an idle connection (idle connections never leave the books)",
-			"poolPingPong.Close holds clientMux while closing the idle connections; the synchronous close event runs activeClientPingPong.OnEvent -> removeFromPool, which locks clientMux again: the caller of Close waits for itself while holding the pool mutex, every later NewStream on this pool blocks too"
+		return c09DLCloseClass, c09DLCloseDetail
 	}
 	return "", ""
 }
@@ -185,7 +190,20 @@ func (c09PingPong) NewPool(ctx context.Context, host types.Host) types.Connectio
 func (c09PingPong) Prepare(pool types.ConnectionPool, ctx context.Context) (bool, error) {
 	return pool.CheckAndInit(ctx), nil
 }
-func (c09PingPong) Guarded() bool                                                   { return true }
+func (c09PingPong) Guarded() bool { return true }
+func (c09PingPong) PredictDeadlock(pool types.ConnectionPool, ev string, conn *vfake.Conn) (string, string) {
+	p := pool.(*poolPingPong)
+	if ev != "close" {
+		return "", ""
+	}
+	p.clientMux.Lock()
+	n := len(p.idleClients)
+	p.clientMux.Unlock()
+	if n > 0 {
+		return c09DLCloseClass, c09DLCloseDetail
+	}
+	return "", ""
+}
 func (c09PingPong) Quiesce(pool types.ConnectionPool, shutdownRequested bool) error { return nil }
 func (c09PingPong) Books(pool types.ConnectionPool) c09.Books {
 	p := pool.(*poolPingPong)
@@ -217,6 +235,32 @@ func (c09Multiplex) NewPool(ctx context.Context, host types.Host) types.Connecti
 		panic(fmt.Sprintf("bolt did not select the multiplex pool: %T", p))
 	}
 	return p
+}
+
+// PredictDeadlock: closing (either side, or through pool Close, which closes the clients in the slots)
+// a connection whose client is in state GoAway while streams are registered on its stream connection.
+func (c09Multiplex) PredictDeadlock(pool types.ConnectionPool, ev string, conn *vfake.Conn) (string, string) {
+	p := pool.(*poolMultiplex)
+	hit := false
+	for i := range p.activeClients {
+		p.activeClients[i].Range(func(k, v interface{}) bool {
+			ac := v.(*activeClientMultiplex)
+			if ac.codecClient == nil || ac.host.Connection == nil {
+				return true
+			}
+			if conn != nil && c09Fake(ac.host.Connection) != conn {
+				return true
+			}
+			if atomic.LoadUint32(&ac.state) == GoAway && ac.codecClient.ActiveRequestsNum() > 0 && ac.host.Connection.State() != api.ConnClosed {
+				hit = true
+			}
+			return true
+		})
+	}
+	if hit {
+		return c09DLGoAwayClass, c09DLGoAwayDetail
+	}
+	return "", ""
 }
 
 var c09StateName = map[uint32]string{Init: "Init", Connecting: "Connecting", Connected: "Connected", GoAway: "GoAway"}
